@@ -1132,7 +1132,16 @@ def run_ds(ctx, idx):
         if scenario == "A":
             expect["temperature"] = tfeat
         else:
-            tfix = float(rng.uniform(22, 26))
+            # incl. the falsy but valid temperature 0.0 degC and integer-valued settings
+            # (0 degC is inside the documented range of the water model only)
+            q = rng.random()
+            tfix = 0.0 if q < 0.4 else (float(rng.integers(20, 27)) if q < 0.55
+                                         else float(rng.uniform(22, 26)))
+            if tfix == 0.0:
+                alias = "water"
+                calc["emodulus medium"] = alias
+                expect["medium"] = alias
+                ctx.count("ds_cases_with_zero_temperature")
             calc["emodulus temperature"] = tfix
             expect["temperature"] = tfix
     desc.update({"case": idx, "route": "ds", "scenario": scenario, "n": n,
@@ -1157,8 +1166,11 @@ def run_ds(ctx, idx):
         a = log[0]["args"]
         for k, want in expect.items():
             got = a[k]
-            same = np.array_equal(np.asarray(got, dtype=float), np.asarray(want, dtype=float)) \
-                if isinstance(want, np.ndarray) else (got == want and (got is None) == (want is None))
+            if isinstance(want, np.ndarray) or isinstance(got, np.ndarray):
+                same = isinstance(want, np.ndarray) == isinstance(got, np.ndarray) and \
+                    np.array_equal(np.asarray(got, dtype=float), np.asarray(want, dtype=float))
+            else:
+                same = bool(got == want) and (got is None) == (want is None)
             if not same:
                 problems.append(f"argument {k}={got!r}, configuration says {want!r}")
         if not np.array_equal(np.asarray(a["area_um"], dtype=float), x) \
